@@ -17,7 +17,9 @@
 //!   33 s     publish a value whose serialized size is s bytes (at least the minimum size)
 //!   34 q     receiver q: borrow_and_update()      35 q   poll changed(), then borrow_and_update()
 //!   36       barrier                   37 n   n harness yields       38   drop the source
-//! The model does not cover size limits: output [96], the oracle judges alone.
+//! Mode 2 is deterministic and is compared number by number with `Run/RunWatchSize.v` (observations
+//! of 34/35, 99 for a receiver that does not exist, final dump 77 n {0 | 1 h p ended unseen}); the
+//! emitted input carries the sizes actually used.  Mode 3 prints [96]: the oracle judges alone.
 //!
 //! Oracle (the property restricted by the documented effect of the limits: a value larger than the
 //! sender-side limit of a link ends the stream behind that link only; a value larger than the
@@ -91,6 +93,14 @@ fn wrap(v: usize, rx: Rx) -> ItemS {
 }
 fn unwrap(it: ItemR) -> Rx {
     variants!(unwrap_m, it)
+}
+
+/// tag of a value: a constant high bit keeps the encoded width of the tag (hence the minimum size) constant
+fn tag_of(idx: u64, p: u64) -> u64 {
+    (1 << 40) | (idx << PBITS) | p
+}
+fn untag(tag: u64) -> Seen {
+    Seen::Val((tag >> PBITS) & 0xFFFF, tag & ((1 << PBITS) - 1))
 }
 
 fn ser_size(v: &Val) -> usize {
@@ -177,6 +187,10 @@ pub struct World {
     dirty: bool,
     oracle: Result<(), String>,
     pub malformed: bool,
+    /// observations (compared with the model in mode 2)
+    pub out: Vec<u128>,
+    /// the input as emitted: requested sizes replaced by the sizes used
+    pub ann: Vec<u128>,
     // signature material
     pub n_links: usize,
     pub depth: usize,
@@ -237,7 +251,7 @@ impl World {
 
     fn look(rx: &Rx) -> Seen {
         match rx.borrow() {
-            Ok(v) => Seen::Val(v.tag >> PBITS, v.tag & ((1 << PBITS) - 1)),
+            Ok(v) => untag(v.tag),
             Err(_) => Seen::ErrVal,
         }
     }
@@ -401,6 +415,13 @@ async fn connect() -> Result<Conn, String> {
     Ok(Conn { _net: net, tx: [txa, txb], rx: [rxa, rxb], tasks: vec![ta, tb] })
 }
 
+fn seen_out(s: Seen) -> [u128; 2] {
+    match s {
+        Seen::Val(i, p) => [i as u128 + 1, p as u128],
+        Seen::ErrVal => [0, 0],
+    }
+}
+
 pub fn arity(op: u128) -> Option<usize> {
     match op {
         30 => Some(2),
@@ -411,7 +432,7 @@ pub fn arity(op: u128) -> Option<usize> {
 }
 
 pub async fn run_case(mode: u128, src_kind: u128, ops: &[u128]) -> World {
-    let (init, isize) = make_val(0, 0);
+    let (init, isize) = make_val(tag_of(0, 0), 0);
     let (src, fwd, rx0): (Source, Option<watch::Forwarding>, Rx) = if src_kind == 0 {
         let (tx, rx) = watch::channel::<Val, codec::Default>(init);
         (Source::Remoc(tx), None, rx)
@@ -431,6 +452,8 @@ pub async fn run_case(mode: u128, src_kind: u128, ops: &[u128]) -> World {
         dirty: false,
         oracle: Ok(()),
         malformed: false,
+        out: Vec::new(),
+        ann: vec![mode, src_kind],
         n_links: 0,
         depth: 0,
         ended_by_limit: 0,
@@ -450,10 +473,15 @@ pub async fn run_case(mode: u128, src_kind: u128, ops: &[u128]) -> World {
     while let Some((&op, rest)) = l.split_first() {
         let Some(need) = arity(op).filter(|n| rest.len() >= *n) else {
             w.malformed = true;
+            w.ann.extend_from_slice(l);
+            w.out.push(98);
             break;
         };
         let args = &rest[..need];
         l = &rest[need..];
+        let ann_at = w.ann.len();
+        w.ann.push(op);
+        w.ann.extend_from_slice(args);
         if op != 33 && op != 37 {
             cur_burst = 0;
         }
@@ -461,6 +489,7 @@ pub async fn run_case(mode: u128, src_kind: u128, ops: &[u128]) -> World {
             30 => {
                 let (q, v) = (args[0] as usize, (args[1] % 16) as usize);
                 let Some((rx, cell, last)) = w.rxs.get(q).and_then(|i| i.rx.as_ref().map(|rx| (rx.clone(), i.cell, i.last))) else {
+                    w.out.push(99);
                     continue;
                 };
                 if w.dirty {
@@ -500,6 +529,8 @@ pub async fn run_case(mode: u128, src_kind: u128, ops: &[u128]) -> World {
                 let q = args[0] as usize;
                 if let Some((rx, cell, last)) = w.rxs.get(q).and_then(|i| i.rx.as_ref().map(|rx| (rx.clone(), i.cell, i.last))) {
                     w.rxs.push(RxInfo { rx: Some(rx), cell, last });
+                } else {
+                    w.out.push(99);
                 }
             }
             32 => {
@@ -507,41 +538,60 @@ pub async fn run_case(mode: u128, src_kind: u128, ops: &[u128]) -> World {
                 if let Some(rx) = w.rxs.get_mut(q).and_then(|i| i.rx.take()) {
                     drop(rx);
                     w.dirty = true;
+                } else {
+                    w.out.push(99);
                 }
             }
             33 => {
                 let idx = w.sent.len() as u64;
-                let p = (args[0] as u64) & ((1 << PBITS) - 1);
-                let (val, size) = make_val((idx << PBITS) | p, (args[0] as usize).min(1 << 20));
+                let (mut val, size) = make_val(tag_of(idx, 0), (args[0] as usize).min(1 << 20));
+                // the payload is the size actually used, which is also what the emitted input asks for
+                let p = (size as u64) & ((1 << PBITS) - 1);
+                val.tag = tag_of(idx, p);
+                w.ann[ann_at + 1] = size as u128;
                 match &w.src {
                     None => continue,
                     Some(Source::Remoc(tx)) => {
-                        if tx.send(val).is_ok() {
-                            w.sent.push((p, size));
-                        }
+                        tx.send_replace(val);
                     }
                     Some(Source::Tokio(tx)) => {
                         tx.send_replace(val);
-                        w.sent.push((p, size));
                     }
                 }
+                w.sent.push((p, size));
                 cur_burst += if w.exact { 0 } else { 1 };
                 w.burst = w.burst.max(cur_burst);
                 w.dirty = true;
             }
             34 | 35 => {
                 let q = args[0] as usize;
-                let Some(rx) = w.rxs.get_mut(q).and_then(|i| i.rx.as_mut()) else { continue };
+                let Some(rx) = w.rxs.get_mut(q).and_then(|i| i.rx.as_mut()) else {
+                    w.out.push(99);
+                    continue;
+                };
                 if op == 35 {
                     use futures::FutureExt;
-                    if !matches!(rx.changed().now_or_never(), Some(Ok(()))) {
-                        continue;
+                    match rx.changed().now_or_never() {
+                        Some(Ok(())) => (),
+                        Some(Err(_)) => {
+                            w.out.extend([2, 2, 0, 0]);
+                            continue;
+                        }
+                        None => {
+                            w.out.extend([2, 3, 0, 0]);
+                            continue;
+                        }
                     }
                 }
                 let s = match rx.borrow_and_update() {
-                    Ok(v) => Seen::Val(v.tag >> PBITS, v.tag & ((1 << PBITS) - 1)),
+                    Ok(v) => untag(v.tag),
                     Err(_) => Seen::ErrVal,
                 };
+                w.out.push(2);
+                if op == 35 {
+                    w.out.push(1);
+                }
+                w.out.extend(seen_out(s));
                 w.check_seen(q, s, if op == 34 { "borrow_and_update" } else { "changed + borrow_and_update" });
             }
             36 => w.quiesce("a barrier").await,
@@ -562,6 +612,32 @@ pub async fn run_case(mode: u128, src_kind: u128, ops: &[u128]) -> World {
         }
     }
     w.quiesce("the final barrier").await;
+    if !w.malformed {
+        use futures::FutureExt;
+        w.out.push(77);
+        w.out.push(w.rxs.len() as u128);
+        for i in 0..w.rxs.len() {
+            match &w.rxs[i].rx {
+                None => w.out.push(0),
+                Some(rx) => {
+                    let ended = rx.has_changed().is_err();
+                    let unseen = matches!(rx.clone().changed().now_or_never(), Some(Ok(())));
+                    w.out.push(1);
+                    w.out.extend(seen_out(World::look(rx)));
+                    w.out.extend([ended as u128, unseen as u128]);
+                }
+            }
+        }
+    }
+    // error values are assumed to pass every limit
+    {
+        let e: Result<Val, watch::RecvError> = Err(watch::RecvError::RemoteReceive(base::RecvError::MaxItemSizeExceeded));
+        let mut buf = Vec::new();
+        <codec::Default as codec::Codec>::serialize(&mut buf, &e).expect("serializable");
+        if buf.len() > L0 {
+            w.fail(format!("harness assumption: an error value takes {} bytes, more than the smallest limit", buf.len()));
+        }
+    }
     // the source goes away: every stream ends, forwarding resolves
     let had_src = w.src.take().is_some();
     w.quiesce(if had_src { "the drop of the source" } else { "the final barrier" }).await;
@@ -606,8 +682,9 @@ pub fn exec(inp: &[u128]) -> (Vec<u128>, Vec<u128>, String, String) {
         Ok(w) => w,
         Err(_) => return (inp, vec![95], "panic".into(), "FAIL: panic in the implementation or the harness".into()),
     };
+    let out = if inp[0] == 2 { w.out.clone() } else { vec![96] };
     if w.malformed {
-        return (inp, vec![96], "malformed".into(), w.verdict());
+        return (w.ann.clone(), out, "malformed".into(), w.verdict());
     }
     let sig = format!(
         "size:{}:{}:links{}:depth{}:cut{}:err{}:burst{}",
@@ -619,7 +696,7 @@ pub fn exec(inp: &[u128]) -> (Vec<u128>, Vec<u128>, String, String) {
         w.err_shown.min(2),
         w.burst.min(3),
     );
-    (inp, vec![96], sig, w.verdict())
+    (w.ann.clone(), out, sig, w.verdict())
 }
 
 impl World {
